@@ -330,6 +330,25 @@ impl Property for C14 {
                 Some("export") => toks.get(3).map(|s| s.to_string()),
                 _ => None,
             };
+            // specification (C14): the sync switch follows the history of acknowledged requests
+            // (first open sets it, further opens only enable it, set-sync sets it), and the
+            // sync-gated requests succeed exactly while it is on
+            let sync_obs: Option<(String, &str)> = match toks.get(2).copied() {
+                Some("state") => out.strip_prefix("state ").and_then(|r| r.split(' ').next()).map(|s| (toks[3].to_string(), if s == "1" { "1" } else { "0" })),
+                Some("remoteq") | Some("syncinit") => {
+                    if out == "err:sync-disabled" {
+                        Some((toks[3].to_string(), "0"))
+                    } else if out == "inserted" || out == "notinserted" || out == "ok" {
+                        Some((toks[3].to_string(), "1"))
+                    } else {
+                        None
+                    }
+                }
+                _ => None,
+            };
+            if let Some((doc, obs)) = sync_obs {
+                lines.push(Line::oracle(format!("ssync 1 {doc}"), obs));
+            }
             if let Some(doc) = doc {
                 let writable = if out.starts_with("inserted") || out == "notinserted" || out.starts_with("secret") {
                     Some("1")
